@@ -26,6 +26,8 @@ fn streams(t: Tier) -> Vec<StreamDef> {
         st("truncations", t.n(57 * 49, 57 * 49, 40, 57 * 49), true),
         st("bitflips", t.n(57 * 384, 57 * 384, 40, 57 * 384), true),
         st("flagwords", t.n(65536, 65536, 40, 65536), true),
+        st("big", t.n(320, 8000, 0, 320), false),
+        st("soak", t.n(16, 16, 0, 0), true),
     ]
 }
 
@@ -196,6 +198,48 @@ fn run(ctx: &mut Ctx) {
             let n = (ctx.rng.below(3)) as usize;
             let b = body_for_word(&mut ctx.rng, w, n);
             judge(ctx, &b, "flagword");
+        }
+        "big" => match wire::big_input(&mut ctx.rng) {
+            (wire::Big::Msg(b), tag) => judge(ctx, &b, tag),
+            (wire::Big::Avps(b), tag) => {
+                ctx.rep.case(&b[b.len().saturating_sub(64)..], true);
+                ctx.rep.bucket(&format!("gen.{}", tag));
+                for rk in [Rk::Slice, Rk::ContractSlice] {
+                    let run = exec::decode_avps(&b, rk);
+                    ctx.rep.bucket("avps.calls");
+                    match &run.out {
+                        Out::Panic(p) => ctx.violate(format!("C01:decode_avps:panic:{}", p.class()), format!("try_read_greedy panicked on a {}-octet list: {}", b.len(), p.message), J::obj(vec![("len", J::U(b.len() as u64)), ("tail_hex", J::hex(&b[b.len().saturating_sub(48)..])), ("generator", J::s(tag))])),
+                        Out::Budget => ctx.violate("C01:decode_avps:step-budget", "try_read_greedy exceeded 8n+64 reader calls", J::obj(vec![("len", J::U(b.len() as u64)), ("generator", J::s(tag))])),
+                        _ => {}
+                    }
+                }
+            }
+        },
+        "soak" => {
+            // cumulative volume: one thread decodes more than 2^32 octets (borrowed payloads make
+            // this cheap); nothing may depend on how much has been decoded before
+            let n = 32usize << 20;
+            let mut big = vec![0xa5u8; n];
+            big[0] = 0x00;
+            big[1] = 0x20;
+            let boxed: Box<[u8]> = big.into();
+            ctx.rep.case(b"soak", true);
+            let res = crate::monitor::panic::catch(|| {
+                let mut ok = 0u32;
+                for _ in 0..136 {
+                    let mut r = rl2tp::common::SliceReader::from(&boxed);
+                    if rl2tp::Message::<&[u8]>::try_read(&mut r).is_ok() {
+                        ok += 1;
+                    }
+                }
+                ok
+            });
+            match res {
+                crate::monitor::panic::Ended::Returned(136) => ctx.rep.bucket_n("soak.octets_decoded_on_one_thread", 136 * n as u64),
+                crate::monitor::panic::Ended::Returned(k) => ctx.violate("C01:soak:result-changes-with-volume", format!("only {} of 136 identical decodes of a 32 MiB data message succeeded", k), J::Null),
+                crate::monitor::panic::Ended::Panicked(p) => ctx.violate(format!("C01:soak:panic:{}", p.class()), format!("decoding the same 32 MiB data message repeatedly on one thread (4.25 GiB in total) panicked: {} at {}:{}", p.message, p.file, p.line), J::obj(vec![("message", J::s("00 20 a5 a5 a5 a5 followed by 32 MiB of a5")), ("repetitions", J::U(136))])),
+                _ => unreachable!(),
+            }
         }
         _ => unreachable!(),
     }
